@@ -409,6 +409,12 @@ def bind_section(ctx, m):
         ctx.corr_checked += 1
         ctx.nontrivial.add('bind:' + c['text'])
         hist[c['rend']] = hist.get(c['rend'], 0) + 1
+        if c['rend'] == 'layout' and not c['side']:
+            # outside the layout grammar of the theorem (gaps_ok_b): a comment directly behind a NEW name (the variable of a binding, a formal
+            # parameter) or between `function` and `(` is swallowed into the name by the real lexer -- the listed finding
+            # comment-behind-new-name, whose witnesses run below; the model does not follow the lexer there, nothing is compared
+            stats['layout_outside'] = stats.get('layout_outside', 0) + 1
+            continue
         mtoks, mbits, mend = model_stream(c['items'])
         exp = opt_ast(c['mt'], keys)
         ast = got.get('ast')
@@ -446,6 +452,27 @@ def bind_section(ctx, m):
         if 'panic' in got or 'crash' in got or ast != exp:
             stats['tree'] += 1
             fails.append((c, 'tree: the parser gives %s, the text-level model %s' % (json.dumps(ast if ast is not None else got.get('err', got))[:300], json.dumps(exp)[:300] if exp else 'no tree')))
+    # witnesses of the listed finding comment-behind-new-name: the property says comments between tokens do not change the tree
+    wit = [('for a /*x*/ in xs return a', ['For', ['IterationContexts', ['IterationContextSingle', ['Name', 'a'], ['Name', 'xs']]], ['EvaluatedExpression', ['Name', 'a']]]),
+           ('some a /*x*/in xs satisfies a', ['Some', ['QuantifiedContexts', ['QuantifiedContext', ['Name', 'a'], ['Name', 'xs']]], ['Satisfies', ['Name', 'a']]]),
+           ('every a // x\n in xs satisfies a', ['Every', ['QuantifiedContexts', ['QuantifiedContext', ['Name', 'a'], ['Name', 'xs']]], ['Satisfies', ['Name', 'a']]]),
+           ('function(a /*c*/) a', ['FunctionDefinition', ['FormalParameters', ['FormalParameter', ['ParameterName', 'a'], ['FeelType', 'Any']]], ['FunctionBody', ['Name', 'a'], False]]),
+           ('function /*c*/ (a) a', ['FunctionDefinition', ['FormalParameters', ['FormalParameter', ['ParameterName', 'a'], ['FeelType', 'Any']]], ['FunctionBody', ['Name', 'a'], False]]),
+           # controls: the same comments in front of the name and behind `in` / `)` do not change the tree
+           ('for /*x*/ a in /*y*/ xs return a', ['For', ['IterationContexts', ['IterationContextSingle', ['Name', 'a'], ['Name', 'xs']]], ['EvaluatedExpression', ['Name', 'a']]]),
+           ('function(/*c*/ a) /*d*/ a', ['FunctionDefinition', ['FormalParameters', ['FormalParameter', ['ParameterName', 'a'], ['FeelType', 'Any']]], ['FunctionBody', ['Name', 'a'], False]])]
+    wres = ctx.run_impl('ast', [{'bind': [[['xs'], {'list': [1]}]], 'e': t, 'mode': 'expr', 'eval': False} for t, _ in wit])
+    for k, ((t, want), g) in enumerate(zip(wit, wres)):
+        ctx.evaluations += 1
+        got_ast = g.get('ast')
+        if got_ast == want:
+            continue
+        # the symptom of the finding: a syntax error, or a tree whose new name holds the comment text; never a panic
+        swallowed = 'panic' not in g and 'crash' not in g and (got_ast is None or '/' in json.dumps(got_ast))
+        if k < 5 and swallowed and ctx.known('comment-behind-new-name', {'text': t}):
+            continue
+        ctx.violation('input `%s`: a comment between tokens changes the tree: the parser gives %s, without the comment %s' % (t, json.dumps(got_ast if got_ast is not None else g.get('err'))[:200], json.dumps(want)[:200]),
+                      {'text': t, 'expected': want}, impl=g)
     scope_bad = 0
     for t, text, (fok, _, items), ((rtoks, rbits), rok) in zip(scope_trees, scope_texts, scope_model, scope_traces):
         ctx.evaluations += 1
